@@ -1,5 +1,7 @@
 package vp8
 
+import "image"
+
 // Shims of ours (not part of x/image) exporting the unexported kernels of the reference decoder.
 
 // VerifIDCT4 adds the inverse DCT of coeffs (position k = column + 4*row) to the 4x4 block pred.
@@ -128,4 +130,47 @@ func VerifPredict(n int, mode int, tl uint8, top []uint8, left []uint8) []uint8 
 		}
 	}
 	return out
+}
+
+// VerifReconstructRow reconstructs macroblock row mby (0 or 1) of a picture mbw macroblocks wide with
+// ALL residuals zero, i.e. the pure prediction chain with the reference decoder's workspace handling
+// (prepareYBR + reconstructMacroblock). topY/topCb/topCr are the bottom sample rows of the row above
+// (used when mby > 0); i4[x] says whether macroblock x uses 4x4 prediction, modes[x] holds its luma
+// modes (one for 16x16), cmode[x] its chroma mode. Returns the 16 luma rows and 8+8 chroma rows.
+func VerifReconstructRow(mbw, mby int, topY, topCb, topCr []uint8, i4 []bool, modes [][16]uint8, cmode []uint8) (Y, Cb, Cr []uint8) {
+	d := &Decoder{}
+	d.mbw, d.mbh = mbw, 2
+	d.img = image.NewYCbCr(image.Rect(0, 0, 16*mbw, 32), image.YCbCrSubsampleRatio420)
+	if mby > 0 {
+		copy(d.img.Y[(16*mby-1)*d.img.YStride:], topY)
+		copy(d.img.Cb[(8*mby-1)*d.img.CStride:], topCb)
+		copy(d.img.Cr[(8*mby-1)*d.img.CStride:], topCr)
+	}
+	for mbx := 0; mbx < mbw; mbx++ {
+		d.prepareYBR(mbx, mby)
+		d.usePredY16 = !i4[mbx]
+		if d.usePredY16 {
+			d.predY16 = modes[mbx][0]
+		} else {
+			for j := 0; j < 4; j++ {
+				for i := 0; i < 4; i++ {
+					d.predY4[j][i] = modes[mbx][4*j+i]
+				}
+			}
+		}
+		d.predC8 = cmode[mbx]
+		d.nzDCMask, d.nzACMask = 0, 0
+		d.reconstructMacroblock(mbx, mby)
+		for i, y := (mby*d.img.YStride+mbx)*16, 0; y < 16; i, y = i+d.img.YStride, y+1 {
+			copy(d.img.Y[i:i+16], d.ybr[ybrYY+y][ybrYX:ybrYX+16])
+		}
+		for i, y := (mby*d.img.CStride+mbx)*8, 0; y < 8; i, y = i+d.img.CStride, y+1 {
+			copy(d.img.Cb[i:i+8], d.ybr[ybrBY+y][ybrBX:ybrBX+8])
+			copy(d.img.Cr[i:i+8], d.ybr[ybrRY+y][ybrRX:ybrRX+8])
+		}
+	}
+	Y = d.img.Y[16*mby*d.img.YStride : 16*(mby+1)*d.img.YStride]
+	Cb = d.img.Cb[8*mby*d.img.CStride : 8*(mby+1)*d.img.CStride]
+	Cr = d.img.Cr[8*mby*d.img.CStride : 8*(mby+1)*d.img.CStride]
+	return
 }
